@@ -147,7 +147,13 @@ def render_operand(p, a, asy, names):
         snaps = "".join(snap_call(sid, b) for sid, b in a.snaps)
         # every third capture is spelled as a labelled block (still a block expression)
         label = "'blk%d: " % a.cap if a.cap % 3 == 0 else ""
-        return "%s{ cap(%d);%s %s }" % (label, a.cap, snaps, call)
+        blk = "%s{ cap(%d);%s %s }" % (label, a.cap, snaps, call)
+        if getattr(p, "_frag", None) is not None and a.cap % 2 == 0 and not label:
+            # a block capture forwarded as a `$e:expr` fragment is still "written as a block": evaluated once, in front of its
+            # step ("\0" = never as a parenthesized `$e:tt`, which would make it an ordinary parenthesized operand)
+            p._frag.append("\0" + blk)
+            return "$e%d" % (len(p._frag) - 1)
+        return blk
     return call
 
 
@@ -182,7 +188,7 @@ def branch_names(p):
 
 
 def frag_mode(p):
-    """Every fifth unnamed program passes half of its non-block operands and its handler to the macro as `$e:expr`
+    """Every fifth unnamed program passes half of its operands (block captures among them) and its handler to the macro as `$e:expr`
     fragments of a local macro_rules (a frequent way of wrapping join! in user code): the proc macro then sees
     None-delimited groups where it otherwise sees the expression's own tokens."""
     return p.id % 5 == 2 and not any(b["named"] for b in p.branches)
@@ -202,8 +208,9 @@ def wrap_hygiene(p, kind, body):
     if getattr(p, "_frag", None):
         # alternately as `$e:expr` (a None-delimited group for the proc macro) and as `$e:tt` (a parenthesized group whose
         # tokens keep the caller's hygiene context while the invocation itself is written inside the macro_rules body)
-        params = ", ".join("$e%d:%s" % (i, "tt" if i % 2 else "expr") for i in range(len(p._frag)))
-        args = ", ".join(("(%s)" % f) if i % 2 else f for i, f in enumerate(p._frag))
+        as_tt = [i % 2 == 1 and not f.startswith("\0") for i, f in enumerate(p._frag)]
+        params = ", ".join("$e%d:%s" % (i, "tt" if as_tt[i] else "expr") for i in range(len(p._frag)))
+        args = ", ".join(("(%s)" % f) if as_tt[i] else f.lstrip("\0") for i, f in enumerate(p._frag))
         return "{ macro_rules! __fe { (%s) => { %s } } __fe!(%s) }" % (params, invocation, args)
     named = [i for i, b in enumerate(p.branches) if b["named"]]
     if not named or p.id % 4 in (0, 1):
@@ -308,7 +315,7 @@ def render_prog(p, want_async=True, skip=()):
     hnd = "None" if not p.handler else "Some(Hnd { id: %d, pos: %d })" % p.handler
     text = render_body(p, "join", hk_for(p, "join"))
     for i in reversed(range(len(p._frag or []))):
-        text = text.replace("$e%d" % i, "$e%d:expr=(%s)" % (i, p._frag[i]))
+        text = text.replace("$e%d" % i, "$e%d:expr=(%s)" % (i, p._frag[i].lstrip("\0")))
     lines.append("    pub static PROG: Prog = Prog { id: %d, branches: &[%s], handler: %s, joiner: Joiner::%s, opt: %s, max_id: %d, tags: %s, text: %s };" % (
         p.id, ", ".join(brs), hnd, p.joiner, "true" if p.opt else "false", p.next_id, rust_str(",".join(p.tags)), rust_str(text)))
     cases = []
